@@ -86,7 +86,7 @@ def make_case(seed, index, tier):
     return {'seed': seed, 'index': index, 'tier': tier,
             'scenario': {'producers': producers, 'consumers': consumers},
             'twins': rng.random() < 0.4, 'reused': rng.random() < 0.4,
-            'nones': rng.random() < 0.25}
+            'nones': rng.random() < 0.25, 'early': rng.random() < 0.3}
 
 
 class QueueChecker:
@@ -266,18 +266,24 @@ def build_for(case):
 
             async def run():
                 for number, op in enumerate(spec['ops']):
+                    item = '%s.%d' % (name, number)
+                    prepared = None
+                    if case.get('early') and number % 2 == 0:
+                        # the awaitable of the operation is made some time before it is awaited
+                        # (like `scope.do(queue.put(x), after=...)`): it acts when awaited
+                        prepared = queue.close() if op['op'] == 'close' else queue.put(wrap(item))
+                        checker.stats['prepared_early'] = checker.stats.get('prepared_early', 0) + 1
                     if op['offset']:
                         await (time + op['offset'])
                     if op['op'] == 'close':
                         checker.close_start(name)
-                        await queue.close()
+                        await (prepared if prepared is not None else queue.close())
                         continue
-                    item = '%s.%d' % (name, number)
                     if checker.closed:
                         checker.put_start_closed_mark(item)
                     checker.put_start(name, item)
                     try:
-                        await queue.put(wrap(item))
+                        await (prepared if prepared is not None else queue.put(wrap(item)))
                     except StreamClosed:
                         checker.put_rejected(name, item)
                     else:
